@@ -3,8 +3,7 @@
 #define VP_MKCELL_H
 #include "vp.h"
 #include "h3Index.h"
-static inline H3Index mkcell(int res, const char *name) {
-    uint64_t x = vp_u64(name);
+static inline H3Index mkcell_from(int res, uint64_t x) {
 #ifdef VP_NATIVE
     H3Index h = x;
     __CPROVER_assume(H3_GET_RESOLUTION(h) == res);
@@ -16,4 +15,5 @@ static inline H3Index mkcell(int res, const char *name) {
     __CPROVER_assume(H3_EXPORT(isValidCell)(h));
     return h;
 }
+static inline H3Index mkcell(int res, const char *name) { return mkcell_from(res, vp_u64(name)); }
 #endif
